@@ -25,6 +25,8 @@ RefinesOne ==
 \* folding makes progress exactly on literal pairs and never grows the expression
 Shrinks ==
   LET f == Build(T, Toks("min")) c == Compile(f) IN Len(c.nodes) <= Len(f.nodes) /\ Len(c.ops) + 1 = Len(c.nodes)
+\* var_indices_ordered reports every variable occurrence exactly once, before and after folding
+VioOk == \A m \in {"min", "full"} : LET f == Build(T, Toks(m)) IN VioSound(f) /\ VioSound(Compile(f))
 \* ---- model conformance: the structures the models predict, to be compared with the verif_dump hook of the real code ----
 FlatShape(f) == [nodes |-> [j \in 1..Len(f.nodes) |-> [k |-> f.nodes[j].kind, un |-> f.nodes[j].un]],
                  ops   |-> [j \in 1..Len(f.ops) |-> [idx |-> f.ops[j].o, prio |-> f.ops[j].prio, un |-> f.ops[j].un]],
@@ -40,6 +42,7 @@ EmitModel ==
                     deep |-> DeepShape(DParse(T, tk).e),
                     up |-> Unparse(T, DParse(T, tk).e, <<64>>, TRUE),
                     \* step level: the decisions of compile() and the steps of eval_binary, as the hooks report them
+                    vio_wo |-> VarIndicesOrdered(f), vio |-> VarIndicesOrdered(Compile(f)),
                     comp |-> CompileSteps(f), steps_wo |-> EvalSteps(f), steps |-> EvalSteps(Compile(f)),
                     dcomp |-> DParse(T, tk).tr]))                 \* folds of all compile() calls of the deep parse      \* `@`: any number node that is not a plain literal
 ASSUME Emit => PrintT(ToJson([table |-> T]))
